@@ -3,12 +3,12 @@ CONSTANTS
   Quorum <- Q2
   Calls <- CallsA
   CallArgChoices <- ArgsA
-  InitWire <- WireL
+  InitWire <- WireT3
   SendPool <- NoSend
   SendBudget = 0
   Bound = 100
   MaxCancel = 1
-  MaxClose = 1
+  MaxClose = 0
   MaxDeliveryFail = 1
   Unbuffered = FALSE
   Script <- NoScript
